@@ -442,12 +442,15 @@ impl Recorder {
                 v.push(":)".chars().filter_map(|c| self.keys.code_for_char(c)).map(|c| (c, 0u8)).collect());
                 v
             };
-            for flip in 0..11 {
+            // (flip 11: the context is CREATED with ANSI on, switched off and on again: whatever is prepared at creation for the
+            //  configuration of that moment must not be missing afterwards)
+            for flip in 0..12 {
+                let cfg0 = if flip == 11 { Cfg { ansi: true, ..cfg0.clone() } } else { cfg0.clone() };
                 let mut c1 = cfg0.clone();
                 match flip {
                     0 => c1.english = !c1.english, 1 => c1.smart = !c1.smart, 2 => c1.ansi = !c1.ansi, 3 => c1.kar = !c1.kar, 4 => c1.vowel = !c1.vowel,
                     5 => c1.chandra = !c1.chandra, 6 => c1.reph = !c1.reph, 7 => c1.numpad = !c1.numpad, 8 => c1.karorder = !c1.karorder,
-                    9 => c1.psug = !c1.psug, _ => c1.fsug = !c1.fsug,
+                    9 => c1.psug = !c1.psug, 10 => c1.fsug = !c1.fsug, _ => c1.ansi = !c1.ansi,
                 }
                 for plan in &plans {
                     n += 1;
